@@ -37,7 +37,7 @@ type verifWRecv struct {
 	at int64
 }
 
-func verifWRunScenario(id int, seed uint64) map[string]interface{} {
+func verifWRunScenario(id int, seed uint64, out *verifWOut) map[string]interface{} {
 	h := verifWNewHist(1<<19|id, seed, "run")
 	r := h.r
 	sim := h.sim
@@ -57,11 +57,8 @@ func verifWRunScenario(id int, seed uint64) map[string]interface{} {
 		}
 	}
 	for i, n := 0, r.below(4); i < n; i++ {
-		shape := verifWShapes[r.below(len(verifWShapes))]
-		if shape == "fail1" || shape == "fail2" || shape == "fail12" {
-			shape = "fail0" // a nil dereference inside Run's bare goroutines would end the whole test process; the step-driven histories cover these shapes
-		}
-		h.newToken(shape)
+		// (a panic inside Run's bare goroutines ends the whole test process: the check recognises that from the progress markers)
+		h.newToken(verifWShapes[r.below(len(verifWShapes))])
 	}
 	pre := r.below(4)
 	h.appendEvents(pre)
@@ -77,6 +74,30 @@ func verifWRunScenario(id int, seed uint64) map[string]interface{} {
 
 	mon := []string{}
 	flag := func(prop, key, msg string) { mon = append(mon, prop+"|"+key+"|"+msg) }
+
+	// progress marker (written through): Run starts bare goroutines, a panic in one of them ends the whole test process; the
+	// marker names this scenario's watcher (the receiver printed in the goroutine dump) and what the node is going to serve
+	{
+		evs := []interface{}{}
+		for i, e := range sim.log {
+			var tokShape interface{}
+			if e.tok != nil {
+				if mc := h.tokById[e.tok.id]; mc != nil {
+					tokShape = mc.shape
+				} else if e.tok.id == 0 {
+					tokShape = "native"
+				}
+			}
+			evs = append(evs, map[string]interface{}{"index": i, "uid": e.uid, "kind": e.kind, "cl": e.cl, "sender": e.sender, "well_formed": e.conv, "what": e.what,
+				"names_token_contract_with_answer_shape": tokShape, "fields": e.fields})
+		}
+		toks := []interface{}{}
+		for _, tid := range h.tokIds {
+			toks = append(toks, map[string]interface{}{"id": tid, "answer_shape": h.tokById[tid].shape})
+		}
+		out.emitNow(map[string]interface{}{"k": "progress", "phase": "run", "id": id, "watcher": fmt.Sprintf("%p", h.w), "mainnet": h.mainnet, "pre": pre,
+			"page_size": sim.free.pageSize, "land_every": sim.free.landEvery, "stream": evs, "token_contracts": toks})
+	}
 
 	// collector
 	var rmu sync.Mutex
